@@ -13,6 +13,7 @@ import (
 	"os"
 	"path/filepath"
 	"sort"
+	"strconv"
 	"strings"
 	"testing"
 	"time"
@@ -491,6 +492,73 @@ func vfC16Segments(seedCase *vfSerCase, ctx *vfCtx) *vfViolation {
 			if v := vfCheckCrashImage(root, seq, img, &conf, undamaged, segDocs[1], everAdded, "segment 2 of 3: "+what); v != nil {
 				return v
 			}
+		}
+	}
+	// many damaged segments at once: seven segments of which five are unloadable, each in its own way;
+	// Open and every search still return, and the two undamaged segments are served
+	{
+		many := filepath.Join(root, "many")
+		st, err := vfOpenStore(many, &conf)
+		if err != nil {
+			return vfFail("Open: %v", err)
+		}
+		good := map[uint32]*vfStoreDoc{}
+		ever := map[uint32]bool{1<<30 + 1<<21 + 900000: true}
+		for sidx := 0; sidx < 7; sidx++ {
+			for j := 0; j < 2; j++ {
+				n++
+				d := &vfStoreDoc{N: n, Vec: []float32{float32(n), float32(j + 1)}, Word: "fox"}
+				id, err := vfStoreAdd(st, &conf, d)
+				if err != nil {
+					st.Close()
+					return vfFail("add: %v", err)
+				}
+				ever[id] = true
+				if sidx == 2 || sidx == 6 {
+					good[id] = d
+				}
+			}
+			if err := st.Flush(); err != nil {
+				st.Close()
+				return vfFail("Flush: %v", err)
+			}
+		}
+		if err := st.Close(); err != nil {
+			return vfFail("Close: %v", err)
+		}
+		img := vfReadDirImage(many)
+		vfProtectedFiles = map[string]bool{}
+		damage := 0
+		for name, data := range img {
+			m := vfSegFileRe.FindStringSubmatch(name)
+			if m == nil {
+				continue
+			}
+			sid, _ := strconv.ParseUint(m[2], 10, 64)
+			if sid == 3 || sid == 7 {
+				vfProtectedFiles[name] = true
+				continue
+			}
+			// segment sid is damaged in its hybrid file (half), vector file (emptied), text file (missing) ...
+			switch {
+			case m[1] == "hybrid" && sid%3 == 1:
+				img[name] = data[:len(data)/2]
+				damage++
+			case m[1] == "vector" && sid%3 == 2:
+				img[name] = nil
+				damage++
+			case m[1] == "hybrid" && sid%3 == 0:
+				delete(img, name)
+				damage++
+			}
+		}
+		if damage >= 4 {
+			seq++
+			if v := vfCheckCrashImage(root, seq, img, &conf, good, map[uint32]*vfStoreDoc{}, ever, fmt.Sprintf("seven segments, %d of them damaged", damage)); v != nil {
+				return v
+			}
+			images++
+			ctx.Class("many_damaged_segments")
 		}
 	}
 	ctx.Count("images_checked", images)
